@@ -22,6 +22,10 @@ type Fault struct {
 	// relative to what it could compute). -1: reads normally.
 	StdinLines int   `json:"stdin_lines"`
 	StallNS    int64 `json:"stall_ns,omitempty"`
+	// BackFromEnd > 0 (kind "truncate" only): the cut is that many bytes
+	// before the end of the stream the fault-free run produced; the check
+	// resolves it to AtByte once it has the baseline.
+	BackFromEnd int `json:"back_from_end,omitempty"`
 }
 
 // PeerPlan decides everything about one simulated streaming git process.
